@@ -333,11 +333,14 @@ def write_ndjson(path, events):
 # verdicts, known findings, evidence
 
 def load_known():
-    p = os.path.join(VERIF, 'findings', 'known_findings.json')
-    if not os.path.exists(p):
-        return []
-    with open(p) as f:
-        return json.load(f).get('findings', [])
+    """All committed known-findings files: findings/*.json, each {"findings": [ {property,status,key,what,...} ]}."""
+    d = os.path.join(VERIF, 'findings')
+    out = []
+    for fn in sorted(os.listdir(d)) if os.path.isdir(d) else []:
+        if fn.endswith('.json'):
+            with open(os.path.join(d, fn)) as f:
+                out += json.load(f).get('findings', [])
+    return out
 
 
 class Check:
@@ -480,3 +483,35 @@ def corrupt_selftest(check, trace_module, events, mutate, name, **kw):
     except MachineryError as ex:   # a trace that cannot be consumed at all also counts as rejected
         ok, detail = True, 'not consumable: ' + str(ex)[:120]
     check.selftest(name, ok, detail)
+
+
+# ------------------------------------------------------------------------------------------------
+# spec -> code: scenarios generated by TLC
+
+def scenarios(module, cfg, *, cwd=SPEC, timeout=900, simulate=None, depth=None, seed_=None, limit=None, env=None):
+    """Run TLC on a 'generator' configuration of a design spec and collect the scenarios it prints.
+
+    The spec prints   PrintT("@@SCENARIO " \\o ToJson(x))   (usually from a CONSTRAINT that fires in final states),
+    one line per scenario; they are returned as Python objects (deduplicated, in order). With simulate='num=N' the
+    scenarios are a random sample of behaviours (use seed_), otherwise the exhaustive set of the bounded model.
+    workers=1 so that lines are never interleaved.
+    """
+    r = tlc(module, cfg, cwd=cwd, workers=1, timeout=timeout, simulate=simulate, depth=depth, seed_=seed_, env=env)
+    if r['tlc_error'] or r['violated']:
+        raise MachineryError('scenario generation %s/%s failed:\n%s' % (module, cfg, r['out'][-3000:]))
+    seen, out = set(), []
+    for line in r['out'].splitlines():
+        if line.startswith('"@@SCENARIO '):
+            try:
+                s = json.loads(line)
+            except ValueError:
+                continue
+            body = s[len('@@SCENARIO '):]
+            if body in seen:
+                continue
+            seen.add(body)
+            out.append(json.loads(body))
+            if limit and len(out) >= limit:
+                break
+    r['scenarios'] = out
+    return r
